@@ -52,6 +52,11 @@ def gen_C01(g, tier):
         dev = [g.choice(NODES) for _ in range(4)] if g.random() < 0.5 else [f32(g.r.gauss(0, 1)) for _ in range(4)]
         cs.append(Case('md.field %s %s' % (hexes(s), hexes(dev)), 'cmp', t))
         cs.append(Case('o.c01.moments %s' % hexes(s), 'orc', t, check=flags_then_small(1, 1e-12)))
+    # the process-wide polarization basis is a configuration: the ensemble coherency matrix is convert(S) in every basis
+    mids = [s for _, s in stokes_family(g, 4) if 1e-6 < s[0] < 1e6]
+    for s in mids[:12 if tier == 'quick' else 200]:
+        for b in ('lin', 'cir', 'ell %s %s' % (dhex(g.r.uniform(-1.5, 1.5)), dhex(g.r.uniform(-0.7, 0.7))), 'ell %s %s' % (dhex(0.3), dhex(-0.2))):
+            cs.append(Case('o.c01.basis %s %s' % (b, hexes(s)), 'orc', 'basis-' + b.split()[0], check=flags_then_small(1, 1e-12)))
     return cs
 
 
@@ -78,6 +83,17 @@ def finite_all(vals, line):
     return None
 
 
+def small_hex_list(n):
+    def chk(vals, line):
+        t = line.split()
+        if not t or t[0] != 'ok': return 'error result ' + line[:100]
+        names = ['samples whose value differs from the mean of identical instances', 'samples after which the number of instances drawn is not smooth-1 + n*t']
+        for i in range(n):
+            if hexd(t[1 + i]) != 0.0: return '%g %s' % (hexd(t[1 + i]), names[i])
+        return None
+    return chk
+
+
 def mode_kinds(g):
     beta = g.choice([0.3, 0.5, 1.0, 2.0])
     w = g.randint(2, 6)
@@ -98,6 +114,9 @@ def gen_C06(g, tier):
             for lag in range(0, 4):
                 cs.append(Case('sm.xcov %d %d %s %d %s' % (n, lag, dhex(cv), k, hexes(xs)), 'cmp', 'xcov-lag%d' % lag, check=finite_all))
             cs.append(Case('sm.single %d %s %d %s' % (n, dhex(cv), k, hexes(xs)), 'cmp', 'single-stub'))
+    for smooth in (1, 2, 3, 4, 7):
+        for ns in (1, 2, 5):
+            cs.append(Case('o.c06.boxcarsample %d %d %d' % (smooth, ns, smooth + 3), 'orc', 'boxcar-sample', check=small_hex_list(2)))
     for _ in range(6 if tier == 'quick' else 80):
         n = g.randint(1, 20)
         s = [1.0, g.r.uniform(-0.5, 0.5), g.r.uniform(-0.5, 0.5), g.r.uniform(-0.5, 0.5)]
@@ -163,6 +182,13 @@ def gen_C07(g, tier):
             for sl in (1, 2):
                 cs.append(Case('o.c07.squarelag %d %d %d #%s' % (w, ns, sl, 'lagged-uniform-phase' if uniform else 'lagged-restricted-phase'), 'orc',
                                'hold-lagged-' + ('uniform' if uniform else 'restricted'), check=small_all(1e-12)))
+    # modulation factors of any mean (the shipped models all have unit mean): exact moments of the generated Stokes parameters
+    for _ in range(6 if tier == 'quick' else 120):
+        I0 = g.choice([1.0, 2.0, 0.5])
+        S = [I0, I0 * g.r.uniform(-0.4, 0.4), I0 * g.r.uniform(-0.4, 0.4), I0 * g.r.uniform(-0.4, 0.4)]
+        mu = g.choice([1.0, 2.0, 0.5, 3.0, g.r.uniform(0.2, 4)]); d = g.r.uniform(0.1, 0.9) * mu
+        pts = g.choice([[(mu - d, 0.5), (mu + d, 0.5)], [(mu - d, 0.25), (mu, 0.5), (mu + d, 0.25)], [(mu, 1.0)]])
+        cs.append(Case('o.c07.modcov %s %d %s' % (hexes(S), len(pts), ' '.join(hexes(x) for x in pts)), 'orc', 'modulated-covariance-any-mean', check=flags_then_small(1, 1e-12)))
     return cs
 
 
@@ -198,6 +224,13 @@ def corr_range(b0, b1):
     return (math.exp(-s0 * s1) - 1.0) / den, (math.exp(s0 * s1) - 1.0) / den
 
 
+def first_zero(vals, line):
+    t = line.split()
+    if not t or t[0] != 'ok': return 'error result ' + line[:100]
+    if hexd(t[1]) != 0.0: return '%g factors (or the acceptance decision) differ from a coordinator configured with the final indices from the start' % hexd(t[1])
+    return None
+
+
 def gen_C08(g, tier):
     cs = []
     L = 10 if tier == 'quick' else 14
@@ -231,6 +264,13 @@ def gen_C08(g, tier):
                     cs.append(Case('o.c08.moments %s' % hexes([rho, b0, b1]), 'orc', 'moments-' + tag, check=flags_then_small(1, 1e-5)))
                 else:
                     cs.append(Case('cov.seq %s %s %s' % (hexes([rho, b0, b1]), 'A', hexes(devs[:2])), 'orc', 'rejected-outside', check=must_reject))
+    # history: indices changed after the first factors were drawn
+    for _ in range(10 if tier == 'quick' else 200):
+        rho = g.choice([0.0, 0.3, -0.2, 0.5, 0.9, -0.4]); b0 = g.choice([0.5, 1.0])   # equal initial indices: every rho in [-0.5, 1] is admissible
+        b = [b0, b0] + [g.choice([0.3, 0.5, 1.0, 2.0]) for _ in range(2)]
+        devs = [f32(g.r.gauss(0, 1)) for _ in range(2 * g.randint(1, 4))]
+        cs.append(Case('o.c08.rebuild %s %s %s' % (dhex(rho), hexes(b), hexes(devs)), 'orc', 'indices-changed-after-draws', check=first_zero))
+    cs.append(Case('o.c08.rebuild %s %s %s' % (dhex(0.9), hexes([1.0, 1.0, 0.1, 10.0]), hexes([0.5, -0.5])), 'orc', 'indices-changed-after-draws', check=first_zero))
     return cs
 
 
